@@ -151,6 +151,32 @@ def rule_cells(cx, rid, em, hm, fns):
     return r
 
 
+def rule_message_rows(cx, rid, em):
+    """LCDMessage: top goes to row 0 and bottom to row 1 whichever of the two is present, each with its own alignment"""
+    cls, _f = pe.ir_classes()
+    r = cx.rule(rid, "message(top, bottom): the top text is written to row 0 with top_align and the bottom text to row 1 with bottom_align, whichever of them are given (a bottom-only message does not move up)", floor=6)
+    for top, bottom in (("H_text_top", "H_text_bottom"), ("H_text_top", None), (None, "H_text_bottom")):
+        node = cls["LCDMessage"](name="dev", top=top, bottom=bottom, top_align="center", bottom_align="right", clear_rows=True)
+        res = pe.emit_program(setup=[l2.lcd_decl("i2c"), node], loop=[])
+        if res.raised:
+            raise AnalysisError(f"emit() raises for LCDMessage(top={top}, bottom={bottom})")
+        calls = re.findall(r"__redu_lcd_write_aligned\(([^;]*)\);", res.text)
+        got = {}
+        for c in calls:
+            a = [x.strip() for x in c.split(",")]
+            if len(a) >= 7:
+                txt = "top" if "H_text_top" in a[4] else "bottom" if "H_text_bottom" in a[4] else "?"
+                got[txt] = (a[2], a[3], a[6])
+        want = {}
+        if top:
+            want["top"] = ("0", "0", "__redu_lcd_align_center")
+        if bottom:
+            want["bottom"] = ("0", "1", "__redu_lcd_align_right")
+        r.check(got == want, f"LCDMessage[{'top' if top else ''}{'+' if top and bottom else ''}{'bottom' if bottom else ''}]/rows-and-alignments", (em, em.func("_emit_block")), f"message(top={'given' if top else 'None'}, bottom={'given' if bottom else 'None'}) writes (col,row,align) {got}; expected {want}")
+        r.ok(None)
+    return r
+
+
 def rule_no_static(cx, rid, em):
     """helper templates keep no state of their own: a static local is shared by every display (and every call)"""
     fns, names = helper_functions(em)
@@ -338,6 +364,7 @@ def run(cx):
     # ---- C17-DEV-TRUNC -----------------------------------------------------------------------
     fns = rule_dev_trunc(cx, "C17-DEV-TRUNC", em)
     rule_no_static(cx, "C17-STATELESS", em)
+    rule_message_rows(cx, "C17-MESSAGE", em)
     r = cx.rule("C17-DEV-CLEAR", "write_aligned clears the row through __redu_lcd_clear_row(lcd, cols, row) exactly when clear_row is set, before printing; clear_row itself prints `cols` blanks from column 0", floor=3)
     wa = fns.get("__redu_lcd_write_aligned")
     if wa is None:
